@@ -13,7 +13,23 @@ package envelope
 //@     isHdrKey(sp, a) && bytes(res.VarsigHeader) == nodeBytes(mapValAt(sp, a))
 //@  && isTagKey(sp, b) && res.Tag == nodeStr(mapKeyAt(sp, b)) && res.tokenPayloadNode == mapValAt(sp, b)
 //@
+//@ // an envelope Inspect accepts: [signature bytes, {h: bytes, "ucan/...": payload}] in either order of the two entries
+//@ pure func inspectable(node datamodel.Node) bool =
+//@     lookupIdxErr(node, 0) == nil && asBytesErr(lookupIdx(node, 0)) == nil && lookupIdxErr(node, 1) == nil
+//@  && nodeKind(sigPayload(node)) == datamodel.Kind_Map && mapLen(sigPayload(node)) == 2
+//@  && ((isHdrKey(sigPayload(node), 0) && asBytesErr(mapValAt(sigPayload(node), 0)) == nil && isTagKey(sigPayload(node), 1)) || (isHdrKey(sigPayload(node), 1) && asBytesErr(mapValAt(sigPayload(node), 1)) == nil && isTagKey(sigPayload(node), 0)))
+//@ // the envelope stage of decoding accepts: shape, tag, typed payload, issuer key, announced header, signature
+//@ pure func envAcceptable(node datamodel.Node, tag string, proto schema.TypedPrototype) bool =
+//@     inspectable(node) && tagOf(sigPayload(node)) == tag
+//@  && lookupStrErr(tokenPayloadOf(sigPayload(node)), "iss") == nil && asStringErr(lookupStr(tokenPayloadOf(sigPayload(node)), "iss")) == nil
+//@  && asgErr(reprOf(proto), tokenPayloadOf(sigPayload(node))) == nil && unwrapOf(typedNode(reprOf(proto), tokenPayloadOf(sigPayload(node)))) != nil
+//@  && parseOK(nodeStr(lookupStr(tokenPayloadOf(sigPayload(node)), "iss")))
+//@  && pubKeyErr(parsedDID(nodeStr(lookupStr(tokenPayloadOf(sigPayload(node)), "iss")))) == nil
+//@  && varsigErr(keyTypeOf(issuerKeyOf(sigPayload(node)))) == nil && headerOf(sigPayload(node)) == varsigOf(keyTypeOf(issuerKeyOf(sigPayload(node))))
+//@  && encErr(dagcbor.Encode, sigPayload(node)) == nil
+//@  && sigVerify(issuerKeyOf(sigPayload(node)), encodeWith(dagcbor.Encode, sigPayload(node)), nodeBytes(lookupIdx(node, 0)))
 //@ func Inspect
+//@   ensures [C07] complete: inspectable(node) ==> result1 == nil
 //@   ensures [C09] total: true
 //@   requires node != nil
 //@   ensures [C06,C10] shape: result1 == nil ==> nodeKind(sigPayload(node)) == datamodel.Kind_Map && mapLen(sigPayload(node)) == 2 && result0.sigPayloadNode == sigPayload(node)
